@@ -252,6 +252,23 @@ impl Sess {
         }
         last
     }
+    pub fn code(&mut self, code: u16, sel: u8) -> Suggestion {
+        self.events.push(json!({"key": code, "sel": sel}));
+        self.ctx.get_suggestion_for_key(code, 0, sel)
+    }
+    /// update_engine with a complete configuration (every option explicit)
+    pub fn update(&mut self, cfgv: &Value) {
+        self.events.push(json!({"update": cfgv}));
+        let cfg = make_config(cfgv);
+        self.ctx.update_engine(&cfg);
+    }
+    /// a second, independent context composes `text` (on this thread) and is dropped again
+    pub fn other(&mut self, cfgv: &Value, text: &str) {
+        self.events.push(json!({"other_context": {"config": cfgv, "type": text}}));
+        let mut o = RitiContext::new_with_config(&make_config(cfgv));
+        for c in text.chars() { let _ = o.get_suggestion_for_key(crate::verif_driver::keycode_of(c), 0, 0); }
+        o.finish_input_session();
+    }
     pub fn bs(&mut self, ctrl: bool) -> Suggestion {
         self.events.push(json!({"backspace": ctrl}));
         self.ctx.backspace_event(ctrl)
@@ -314,7 +331,7 @@ mod api {
             v.push(format!("{}:", w));
             v.push(format!("'{}?'", w));
         }
-        for e in [":)", ";)", "x)", "o=)", ":D", "<3", ":-))", ".", "...", "\"", "`", "`a", "a`", ":e", "\\", "^_^", "$", "a:`", "kothagulo", "seshgulo", "amake", "bisoyshombondhiyoo"] { v.push(e.to_string()); }
+        for e in [":)", ";)", "x)", "o=)", ":D", "<3", ":-))", ".", "...", "\"", "`", "`a", "a`", ":e", "\\", "^_^", "$", "a:`", "kothagulo", "seshgulo", "amake", "bisoyshombondhiyoo", "shok,,", ",,k", "(k,,)", "k,", "sad", "poRa"] { v.push(e.to_string()); }
         v
     }
 
@@ -326,6 +343,74 @@ mod api {
     fn curl_open(s: &str) -> String { s.chars().map(|c| match c { '\'' => '\u{2018}', '"' => '\u{201C}', c => c }).collect() }
     fn curl_close(s: &str) -> String { s.chars().map(|c| match c { '\'' => '\u{2019}', '"' => '\u{201D}', c => c }).collect() }
 
+    pub(crate) struct Oracle { pub parser: Parser, pub data: crate::data::Data, pub dict: std::collections::HashSet<String>, pub suffixes: std::collections::HashMap<String, String> }
+    impl Oracle {
+        pub(crate) fn new() -> Self {
+            let dict = {
+                let t: std::collections::HashMap<String, Vec<String>> = serde_json::from_str(&std::fs::read_to_string(format!("{}/dictionary.json", crate::verif_driver::data_dir())).unwrap()).unwrap();
+                t.into_values().flatten().collect()
+            };
+            let suffixes = serde_json::from_str(&std::fs::read_to_string(format!("{}/suffix.json", crate::verif_driver::data_dir())).unwrap()).unwrap();
+            Oracle { parser: Parser::new_phonetic(), data: crate::data::Data::new(&make_config(&phon_cfg(json!({})))), dict, suffixes }
+        }
+        /// the direct dictionary hits for a typed word
+        pub(crate) fn hits(&self, w: &str) -> Vec<String> {
+            let mut ps = crate::phonetic::VerifPhoneticSuggestion::new(Default::default());
+            ps.suggestion_with_dict(&crate::utility::SplittedString::split(w, false), &self.data);
+            ps.cache.get(w).map(|v| v.iter().filter(|r| matches!(r, crate::suggestion::Rank::Other(..))).map(|r| r.to_string().to_string()).collect()).unwrap_or_default()
+        }
+        /// may `cand` be a suffix-built form for the typed word `w` (a dictionary word + a suffix.json text, joining rules undone)?
+        pub(crate) fn maybe_suffix_built(&self, w: &str, cand: &str) -> bool {
+            (1..w.len()).filter(|i| w.is_char_boundary(*i)).any(|i| match self.suffixes.get(&w[i..]) {
+                Some(sfx) => match cand.strip_suffix(sfx.as_str()) {
+                    Some(stem) => {
+                        let mut cands = vec![stem.to_string()];
+                        if let Some(x) = stem.strip_suffix('\u{09DF}') { cands.push(x.to_string()); }
+                        if let Some(x) = stem.strip_suffix('\u{09A4}') { cands.push(format!("{}\u{09CE}", x)); }
+                        if let Some(x) = stem.strip_suffix('\u{0999}') { cands.push(format!("{}\u{0982}", x)); }
+                        cands.iter().any(|c| self.dict.contains(c))
+                    }
+                    None => false,
+                },
+                None => false,
+            })
+        }
+        /// C07 ordering clauses that can be decided from the list alone (dictionary membership and edit distance recomputed here)
+        pub(crate) fn c07_order(&self, list: &[String], t: &str, smart: bool) -> Vec<String> {
+            let mut bad = Vec::new();
+            let cs: Vec<char> = t.chars().collect();
+            let (p, w, tr) = split::split_exec(&cs, false);
+            if w.is_empty() { return bad; }
+            let (pa, ta) = (self.parser.convert(&p), self.parser.convert(&tr));
+            let (pc, tc) = if smart { (curl_open(&pa), curl_close(&ta)) } else { (pa, ta) };
+            let core = |x: &String| -> Option<String> { x.strip_prefix(pc.as_str()).and_then(|y| y.strip_suffix(tc.as_str())).map(|y| y.to_string()) };
+            let base = self.parser.convert(&w);
+            let emoticon = self.data.get_emoji_by_emoticon(t).map(|e| e.to_string());
+            let named: Vec<String> = self.data.get_emoji_by_name(&w).map(|i| i.map(|e| e.to_string()).collect()).unwrap_or_default();
+            let is_emoji = |x: &String| Some(x) == emoticon.as_ref() || core(x).map(|c| named.contains(&c)).unwrap_or(false);
+            // "dictionary word" = a hit of the dictionary search for the typed word (the search itself is the engine's own, run
+            // on a new PhoneticSuggestion; the order is what is checked here)
+            let hits = self.hits(&w);
+            if hits.contains(&base) {
+                if let Some(pos) = list.iter().position(|x| core(x).as_ref() == Some(&base)) {
+                    if list.iter().take(pos).any(|x| is_emoji(x)) { bad.push("C07 an emoji never precedes a dictionary word that equals the transliteration".to_string()); }
+                }
+            }
+            let ac = self.data.search_corrected(&w).map(|c| self.parser.convert(c));
+            let mut prev = 0usize;
+            for (i, x) in list.iter().enumerate() {
+                if is_emoji(x) || x == t { continue; }
+                let c = match core(x) { Some(c) => c, None => continue };
+                if i == 0 && Some(&c) == ac.as_ref() { continue; }
+                if !hits.contains(&c) { continue; }
+                let d = edit_distance::edit_distance(&base, &c);
+                if d < prev { bad.push("C07 dictionary words follow in non-decreasing edit distance from the plain transliteration".to_string()); break; }
+                prev = d;
+            }
+            bad
+        }
+    }
+
     /// C02, C03, C07, C16 (phonetic): every text of the corpus, typed key by key, under option combinations
     pub(crate) fn phonetic(bound: usize, shard: usize, nshards: usize) -> Value {
         let mut o = Out::new("phonetic_api", bound, "corpus of words (bare / wrapped in punctuation), emoticons, punctuation-only and escape texts x {suggestions, English, smart quote, ANSI}");
@@ -335,7 +420,9 @@ mod api {
             let t: std::collections::HashMap<String, Vec<String>> = serde_json::from_str(&std::fs::read_to_string(format!("{}/dictionary.json", crate::verif_driver::data_dir())).unwrap()).unwrap();
             t.into_values().flatten().collect()
         };
+        let suffixes: std::collections::HashMap<String, String> = serde_json::from_str(&std::fs::read_to_string(format!("{}/suffix.json", crate::verif_driver::data_dir())).unwrap()).unwrap();
         let textsv = phon_texts(bound);
+        let oracle = Oracle::new();
         let mut idx = 0usize;
         for sug in [true, false] { for eng in [false, true] { for smart in [false, true] { for ansi in [false, true] {
             let cfgv = phon_cfg(json!({"phonetic_suggestion": sug, "include_english": eng, "smart_quote": smart, "ansi": ansi}));
@@ -409,7 +496,23 @@ mod api {
                 if let Some(a) = &ac {
                     if !w.is_empty() && core(&list[0]).as_ref() != Some(a) { o.fail(json!({"clause": "C07 auto-correct entry is first", "history": s.history(), "observed": list, "expected": a})); }
                 }
-                if !w.is_empty() && ac.as_ref() != Some(&base) && !dict.contains(&base) {
+                // "unless it is itself one of those words": a dictionary word, or a suffix-built word (dictionary word + a
+                // suffix.json text, with the three joining rules undone)
+                let suffix_built = (1..w.len()).filter(|i| w.is_char_boundary(*i)).any(|i| match suffixes.get(&w[i..]) {
+                    Some(sfx) => match base.strip_suffix(sfx.as_str()) {
+                        Some(stem) => {
+                            let mut cands = vec![stem.to_string()];
+                            if let Some(x) = stem.strip_suffix('\u{09DF}') { cands.push(x.to_string()); }
+                            if let Some(x) = stem.strip_suffix('\u{09A4}') { cands.push(format!("{}\u{09CE}", x)); }
+                            if let Some(x) = stem.strip_suffix('\u{0999}') { cands.push(format!("{}\u{0982}", x)); }
+                            cands.iter().any(|c| dict.contains(c))
+                        }
+                        None => false,
+                    },
+                    None => false,
+                });
+                for clause in oracle.c07_order(&list, t, smart) { o.fail(json!({"clause": clause, "history": s.history(), "observed": list})); }
+                if !w.is_empty() && ac.as_ref() != Some(&base) && !dict.contains(&base) && !suffix_built {
                     if let Some(pos) = list.iter().position(|x| core(x).as_ref() == Some(&base)) {
                         for x in list.iter().skip(pos + 1) {
                             if is_emoji(x) || x == t { continue; }
@@ -438,11 +541,15 @@ mod api {
                 if idx % nshards != shard { continue; }
                 o.cases += 1;
                 let mut s = Sess::new(cfgv.clone());
+                // the composition itself: the same keys in a context with list suggestions off (which returns the buffer)
+                let mut plain = Sess::new({ let mut c = cfgv.clone(); c["fixed_suggestion"] = json!(false); c });
                 let mut last = None;
                 let mut bad = false;
                 for c in w.chars() {
                     let sg = s.key(c, 0);
-                    if let Some(e) = check_sg(&sg, None) { o.fail(json!({"clause": "C02 ".to_string() + &e, "history": s.history()})); bad = true; break; }
+                    let comp = plain.key(c, 0);
+                    let comp_text = if comp.is_empty() { String::new() } else { comp.get_lonely_suggestion().to_string() };
+                    if let Some(e) = check_sg(&sg, if sg.is_empty() { None } else { Some(&comp_text) }) { o.fail(json!({"clause": "C02 ".to_string() + &e, "history": s.history()})); bad = true; break; }
                     last = Some(sg);
                 }
                 if bad { continue; }
@@ -530,6 +637,51 @@ mod api {
                 o.nontrivial += 1;
                 o.sample(json!({"text": t, "list": texts(&a)}));
             }
+        }
+        // (4) a word typed after a differently cased spelling of it, and (5) while a second context with another data
+        //     directory (none at all) composes the same words on the same thread
+        let oracle = Oracle::new();
+        let cfgv = phon_cfg(json!({}));
+        let nodb = { let mut c = cfgv.clone(); c.as_object_mut().unwrap().remove("database_dir"); c };
+        for (w1, w2) in [("poRa", "pora"), ("saD", "sad"), ("hoT", "hot"), ("hot", "hoT"), ("moN", "mon"), ("Kothagulo", "kothagulo")] {
+            o.cases += 1;
+            let mut fresh = Sess::new(cfgv.clone());
+            let a = fresh.typ(w2).unwrap();
+            let mut s = Sess::new(cfgv.clone());
+            let _ = s.typ(w1); s.finish();
+            let b = s.typ(w2).unwrap();
+            if !same(&a, &b) {
+                o.fail(json!({"clause": "C05 earlier words do not change the suggestion (differently cased spelling typed before)", "history": s.history(), "observed": show(&b), "expected": show(&a)}));
+                for clause in oracle.c07_order(&texts(&b), w2, false) { o.fail(json!({"clause": clause, "history": s.history(), "observed": texts(&b)})); }
+            }
+            o.nontrivial += 1;
+        }
+        // every run on a thread of its own, so that thread-local state cannot carry the reference into the scenario
+        fn on_thread<T: Send + 'static>(f: impl FnOnce() -> T + Send + 'static) -> T { std::thread::spawn(f).join().unwrap() }
+        for t in ["cool", "kothagulo", "amar"] {
+            o.cases += 1;
+            let (c1, c2, t1) = (cfgv.clone(), nodb.clone(), t.to_string());
+            let a = on_thread(move || { let mut fresh = Sess::new(c1); show(&fresh.typ(&t1).unwrap()) });
+            let (c1, t1) = (nodb.clone(), t.to_string());
+            let a2 = on_thread(move || { let mut fresh = Sess::new(c1); show(&fresh.typ(&t1).unwrap()) });
+            // the other context (no data directory) first
+            let (c1, c2b, t1) = (cfgv.clone(), c2.clone(), t.to_string());
+            let (b, h) = on_thread(move || { let mut s = Sess::new(c1); s.other(&c2b, &t1); let b = show(&s.typ(&t1).unwrap()); (b, s.history()) });
+            if a != b { o.fail(json!({"clause": "C05 other contexts used in the same process do not change the suggestion", "history": h, "observed": b, "expected": a})); }
+            // the other context in between, key by key
+            let (c1, c2b, t1) = (cfgv.clone(), c2.clone(), t.to_string());
+            let (c, h) = on_thread(move || {
+                let mut s2 = Sess::new(c1);
+                let mut last = None;
+                for (i, ch) in t1.chars().enumerate() { s2.other(&c2b, &t1[..i + 1]); last = Some(s2.key(ch, 0)); }
+                (show(&last.unwrap()), s2.history())
+            });
+            if a["list"] != c["list"] { o.fail(json!({"clause": "C05 other contexts used in the same process do not change the suggestion", "history": h, "observed": c, "expected": a})); }
+            // and the reverse direction: a context without a data directory after one with the dictionary
+            let (c1, c2b, t1) = (cfgv.clone(), c2.clone(), t.to_string());
+            let (b2, h) = on_thread(move || { let mut s3 = Sess::new(c2b); s3.other(&c1, &t1); let b = show(&s3.typ(&t1).unwrap()); (b, s3.history()) });
+            if a2 != b2 { o.fail(json!({"clause": "C05 other contexts used in the same process do not change the suggestion", "history": h, "observed": b2, "expected": a2})); }
+            o.nontrivial += 1;
         }
         o.done()
     }
@@ -752,6 +904,85 @@ mod api {
             let a = s.typ("tpu").unwrap(); let b = fresh.typ("tpu").unwrap();
             if !same(&a, &b) { o.fail(json!({"clause": "C11 fixed -> fixed with another layout file loads the new layout", "observed": show(&a), "expected": show(&b)})); }
         }
+        // every ordered pair of a configuration family (phonetic with / without suggestions, Probhat with the number pad on /
+        // off, the synthetic layout with old vowel-sign order): a live context re-configured from A to B answers the probes
+        // exactly like a context newly created under B over the same user files (learned choice, user auto-correct list)
+        {
+            let full = |layout: String, sug: bool, fsug: bool, numpad: bool, kar_order: bool| json!({
+                "layout": layout, "database_dir": crate::verif_driver::data_dir(), "phonetic_suggestion": sug, "include_english": false,
+                "fixed_suggestion": fsug, "fixed_vowel": true, "fixed_chandra": false, "fixed_kar": false, "fixed_old_reph": false,
+                "fixed_numpad": numpad, "fixed_kar_order": kar_order, "ansi": false, "smart_quote": false });
+            let family: Vec<(&str, Value)> = vec![
+                ("phonetic+suggestions", full("avro_phonetic".into(), true, false, true, false)),
+                ("phonetic-suggestions", full("avro_phonetic".into(), false, false, false, false)),
+                ("probhat+numpad+suggestions", full(crate::verif_driver::probhat_layout(), true, true, true, false)),
+                ("probhat-numpad-suggestions", full(crate::verif_driver::probhat_layout(), false, false, false, false)),
+                ("synthetic+old-kar-order", full(crate::verif_driver::synthetic_layout(), true, false, false, true)),
+            ];
+            // the learned choice: the second candidate of "amar"
+            crate::verif_driver::reset_user_files();
+            let learned = { let mut s = Sess::new(family[0].1.clone()); let sg = s.typ("amar").unwrap(); texts(&sg).get(1).cloned().unwrap_or_default() };
+            let sel_file = serde_json::to_string(&json!({"amar": learned})).unwrap();
+            let ac_file = "{\"zzq\":\"kotha\"}".to_string();
+            let layout_of = |c: &Value| -> Option<serde_json::Map<String, Value>> {
+                let l = c["layout"].as_str().unwrap();
+                if l == "avro_phonetic" { return None; }
+                let v: Value = serde_json::from_str(&std::fs::read_to_string(l).unwrap()).unwrap();
+                v["layout"].as_object().cloned()
+            };
+            let pad: [(u16, &str); 4] = [(79, "Num1"), (80, "Num2"), (78, "NumAdd"), (83, "NumDecimal")];
+            for (na, a) in &family { for (nb, b) in &family {
+                if na == nb { continue; }
+                o.cases += 1;
+                let write_files = || {
+                    crate::verif_driver::reset_user_files();
+                    std::fs::write(crate::verif_driver::user_file_path("phonetic-candidate-selection.json"), &sel_file).unwrap();
+                    let p = crate::verif_driver::user_file_path("autocorrect.json");
+                    std::fs::write(&p, &ac_file).unwrap(); crate::verif_driver::set_mtime(&p, 1_000_000);
+                };
+                write_files();
+                let mut s = Sess::new(a.clone());
+                let _ = s.typ(if a["layout"] == "avro_phonetic" { "ami" } else { "tp" }); s.finish();
+                s.update(b);
+                let mut fresh = Sess::new(b.clone());
+                let hist = |s: &Sess| { let mut h = s.history(); h["keep_files"] = json!(false); h["files"] = json!({"phonetic-candidate-selection.json": sel_file, "autocorrect.json": ac_file}); h };
+                if b["layout"] == "avro_phonetic" {
+                    for w in ["amar", "kothagulo", "academy", "zzq", "smile", "\"amar\""] {
+                        let x = s.typ(w).unwrap(); s.finish();
+                        let y = fresh.typ(w).unwrap(); fresh.finish();
+                        if show(&x) != show(&y) {
+                            o.fail(json!({"clause": "C11 after update_engine every later event behaves as in a context newly created with that configuration", "from": na, "to": nb, "probe": w, "history": hist(&s), "observed": show(&x), "expected": show(&y)}));
+                            if w == "amar" && b["phonetic_suggestion"] == true && texts(&x) == texts(&y) {
+                                o.fail(json!({"clause": "C09 a choice learned earlier (stored in the user-data directory) is preselected whenever suggestions are on, however the context was configured when it was created", "from": na, "to": nb, "history": hist(&s), "observed": show(&x), "expected": show(&y)}));
+                            }
+                        }
+                    }
+                } else {
+                    let lay = layout_of(b).unwrap();
+                    for w in ["tp", "hasi", "ap."] {
+                        let x = s.typ(w).unwrap(); s.finish();
+                        let y = fresh.typ(w).unwrap(); fresh.finish();
+                        if show(&x) != show(&y) {
+                            o.fail(json!({"clause": "C11 after update_engine every later event behaves as in a context newly created with that configuration", "from": na, "to": nb, "probe": w, "history": hist(&s), "observed": show(&x), "expected": show(&y)}));
+                        }
+                    }
+                    for (code, name) in pad {
+                        let x = s.code(code, 0); s.finish();
+                        let y = fresh.code(code, 0); fresh.finish();
+                        if show(&x) != show(&y) {
+                            o.fail(json!({"clause": "C11 after update_engine every later event behaves as in a context newly created with that configuration", "from": na, "to": nb, "probe": name, "history": hist(&s), "observed": show(&x), "expected": show(&y)}));
+                        }
+                        // C04, against the layout file itself: the key-pad key emits its assignment exactly while the option is on
+                        let want = if b["fixed_numpad"] == true { lay.get(name).and_then(|v| v.as_str()).filter(|v| !v.is_empty()).map(|v| v.to_string()) } else { None };
+                        let got = if x.is_empty() { None } else { Some(texts(&x)[0].clone()) };
+                        if got != want {
+                            o.fail(json!({"clause": "C04 number-pad keys produce their assignment exactly while the number-pad option is on (option changed by update_engine on a live context)", "from": na, "to": nb, "key": name, "history": hist(&s), "observed": got, "expected": want}));
+                        }
+                    }
+                }
+                o.nontrivial += 1;
+            }}
+        }
         crate::verif_driver::reset_user_files();
         o.sample(json!({"edit": "remove entry"}));
         o.done()
@@ -929,6 +1160,31 @@ mod api {
                 o.nontrivial += 1;
             }
             o.sample(json!({"base": base, "direct": direct}));
+        }
+        // C01 (no blow-up): stacked suffix keys ("kor" + "er" x n, "ami" + "re" x n): the list never holds more than the direct
+        // hits of the prefixes of the word, one auto-correct entry each, the transliteration and the emoji
+        let oracle = super::api::Oracle::new();
+        for (stem, sfx) in [("kor", "er"), ("ami", "re"), ("bisoy", "e")] {
+            o.cases += 1;
+            let mut s = Sess::new(cfgv.clone());
+            let mut word = stem.to_string();
+            let _ = s.typ(stem);
+            let reps = if bound >= 2 { 10 } else { 7 };
+            let t0 = std::time::Instant::now();
+            for _ in 0..reps {
+                let sg = s.typ(sfx).unwrap();
+                word.push_str(sfx);
+                let limit: usize = (1..=word.len()).map(|i| oracle.hits(&word[..i]).len() + 1).sum::<usize>() + 12;
+                if texts(&sg).len() > limit {
+                    o.fail(json!({"clause": "C01 no unbounded blow-up: the candidate list is bounded by the direct hits of the prefixes of the word", "history": s.history(), "observed": texts(&sg).len(), "expected": format!("<= {}", limit)}));
+                    break;
+                }
+                if t0.elapsed().as_secs() > 60 {
+                    o.fail(json!({"clause": "C01 no unbounded blow-up in time (stacked suffix keys)", "history": s.history(), "observed": format!("{} s", t0.elapsed().as_secs())}));
+                    break;
+                }
+            }
+            o.nontrivial += 1;
         }
         o.done()
     }
